@@ -58,6 +58,8 @@ func oracleLayerSpec(c *FsCase, before, after *Outcome, out string) []Problem {
 			x.reserved = true
 		case strings.HasPrefix(base, ".wh."):
 			x.wh, x.target = true, filepath.Join(filepath.Dir(n), base[len(".wh."):])
+		case e.Typ == "xglobal":
+			x.reserved = true // PAX global header under an ordinary name: consumed, nothing is created for it
 		}
 		es = append(es, x)
 	}
